@@ -121,3 +121,21 @@ Example C15_nonvacuous :
   parse_outcome true [] KS "xa unless[1,2] xb" =
   parse_outcome true [] KS "out = always[0,2] xa or xa until[1,2] xb;".
 Proof. split; vm_compute; reflexivity. Qed.
+
+(* ---- the sugar as the re-translated visitExprUnless builds it (tools/py2coq_parservisitor.py -> ElabGen.v) ---- *)
+From RV Require Import ParserDecl PyParse ElabGen ElabGenCorrect.
+Theorem C15_generated_unless :
+  forall (orc : oracle) (du : kw), is_unit du = true ->
+  forall iv a b st, shape_ok true (EBin BUnless iv a b) = true -> lits_ok (EBin BUnless iv a b) = true ->
+  gen_visit_stl orc du st (EBin BUnless iv a b) =
+  bind (visit_dump orc du st a) (fun r1 => bind (visit_dump orc du (fst r1) b) (fun r2 =>
+    match iv with
+    | None => Ok (fst r2, d_bin "or" (d_un "always" (snd r1)) (d_bin "until" (snd r1) (snd r2)))
+    | Some i =>
+        match check_interval (penv_of du (fst r2)) i with
+        | Some (bb, ee) => Ok (fst r2, d_bin "or" (d_unt "always" ("0 " ++ unit_text (it_unit (fst i))) ee (snd r1)) (d_bint "until" bb ee (snd r1) (snd r2)))
+        | None => Rtamt
+        end
+    end)).
+Proof. exact @gen_unless_refines. Qed.
+Print Assumptions C15_generated_unless.
